@@ -89,6 +89,7 @@ type Ctx struct {
 	axioms map[string][]*Term // axioms keyed by the "+"-joined function symbols that must all occur for inclusion
 	sorts  map[string]bool    // declared uninterpreted sorts
 	rewrite map[int]*Term     // term id -> replacement (configuration enumeration)
+	fbCache map[int]map[int]bool // free bound variables per term id
 }
 
 func NewCtx() *Ctx {
@@ -794,40 +795,53 @@ func (c *Ctx) Exists(vars []*Term, body *Term) *Term {
 
 // hasFreeBound reports whether quantifier term t still has free bound variables (nested quantifiers).
 func (c *Ctx) hasFreeBound(t *Term) bool {
-	free := map[int]bool{}
-	seen := map[int]bool{}
-	var walk func(x *Term, bound map[int]bool)
-	walk = func(x *Term, bound map[int]bool) {
-		if !x.bound && x.kind != kForall && x.kind != kExists {
-			return
-		}
-		if x.kind == kBound {
-			if !bound[x.id] {
-				free[x.id] = true
+	return len(c.freeBound(t)) > 0
+}
+
+// freeBound: ids of the bound variables occurring free in t (memoised per term: terms are immutable).
+func (c *Ctx) freeBound(t *Term) map[int]bool {
+	if t.kind == kBound {
+		return map[int]bool{t.id: true}
+	}
+	if !t.bound && t.kind != kForall && t.kind != kExists {
+		return nil
+	}
+	if c.fbCache == nil {
+		c.fbCache = map[int]map[int]bool{}
+	}
+	if r, ok := c.fbCache[t.id]; ok {
+		return r
+	}
+	var out map[int]bool
+	add := func(m map[int]bool) {
+		for k := range m {
+			if out == nil {
+				out = map[int]bool{}
 			}
-			return
-		}
-		if x.kind == kForall || x.kind == kExists {
-			nb := map[int]bool{}
-			for k := range bound {
-				nb[k] = true
-			}
-			for _, v := range x.bvars {
-				nb[v.id] = true
-			}
-			walk(x.args[0], nb)
-			return
-		}
-		if seen[x.id] {
-			// conservative: revisit (cheap for small quantifier bodies)
-		}
-		seen[x.id] = true
-		for _, a := range x.args {
-			walk(a, bound)
+			out[k] = true
 		}
 	}
-	walk(t, map[int]bool{})
-	return len(free) > 0
+	if t.kind == kForall || t.kind == kExists {
+		inner := c.freeBound(t.args[0])
+		own := map[int]bool{}
+		for _, v := range t.bvars {
+			own[v.id] = true
+		}
+		for k := range inner {
+			if !own[k] {
+				if out == nil {
+					out = map[int]bool{}
+				}
+				out[k] = true
+			}
+		}
+	} else {
+		for _, a := range t.args {
+			add(c.freeBound(a))
+		}
+	}
+	c.fbCache[t.id] = out
+	return out
 }
 
 // Subst replaces constants/bound variables by terms (by id) throughout t.
@@ -1038,6 +1052,7 @@ type scriptBuilder struct {
 	usedFns  map[string]bool
 	usedCons map[string]Sort
 	nterms   int
+	qnames   map[int]string // let-bound names of shared sub-terms inside the quantifier being printed
 }
 
 func (c *Ctx) BuildScript(assumptions []*Term, goal *Term, getValues []*Term, opts ScriptOpts) Script {
@@ -1242,6 +1257,12 @@ func (sb *scriptBuilder) emit(t *Term, out *strings.Builder) string {
 
 func (sb *scriptBuilder) print(t *Term, b *strings.Builder, out *strings.Builder, share bool) {
 	sb.nterms++
+	if t.bound && sb.qnames != nil {
+		if n, ok := sb.qnames[t.id]; ok {
+			b.WriteString(n)
+			return
+		}
+	}
 	if share && !t.bound && len(t.args) > 0 && t.size > 3 && sb.refs[t.id] > 1 {
 		if n, ok := sb.names[t.id]; ok {
 			b.WriteString(n)
@@ -1273,7 +1294,7 @@ func (sb *scriptBuilder) printNode(t *Term, b *strings.Builder, out *strings.Bui
 		if len(t.pats) > 0 {
 			b.WriteString("(! ")
 		}
-		sb.print(t.args[0], b, out, share)
+		sb.printQuantBody(t.args[0], b, out, share)
 		if len(t.pats) > 0 {
 			for _, p := range t.pats {
 				b.WriteString(" :pattern (")
@@ -1300,6 +1321,50 @@ func (sb *scriptBuilder) printNode(t *Term, b *strings.Builder, out *strings.Bui
 		}
 		b.WriteByte(')')
 	}
+}
+
+// printQuantBody prints the body of a quantifier. Sub-terms that mention a bound variable cannot be
+// hoisted into top-level definitions; those shared inside the body are bound by nested `let`s so
+// that the text stays linear in the size of the DAG. Nested quantifiers are leaves here (they bind
+// their own shared sub-terms when printed).
+func (sb *scriptBuilder) printQuantBody(body *Term, b *strings.Builder, out *strings.Builder, share bool) {
+	refs := map[int]int{}
+	var order []*Term
+	var walk func(x *Term)
+	walk = func(x *Term) {
+		if !x.bound {
+			return
+		}
+		refs[x.id]++
+		if refs[x.id] > 1 {
+			return
+		}
+		if x.kind != kForall && x.kind != kExists {
+			for _, a := range x.args {
+				walk(a)
+			}
+		}
+		order = append(order, x) // post-order: arguments first
+	}
+	walk(body)
+	saved := sb.qnames
+	sb.qnames = map[int]string{}
+	nlets := 0
+	for _, x := range order {
+		if refs[x.id] > 1 && len(x.args) > 0 && x.kind != kForall && x.kind != kExists && x.size > 3 && x != body {
+			var def strings.Builder
+			sb.printNode(x, &def, out, share)
+			n := fmt.Sprintf("q!%d", x.id)
+			fmt.Fprintf(b, "(let ((%s %s)) ", n, def.String())
+			sb.qnames[x.id] = n
+			nlets++
+		}
+	}
+	sb.print(body, b, out, share)
+	for i := 0; i < nlets; i++ {
+		b.WriteByte(')')
+	}
+	sb.qnames = saved
 }
 
 // letPrint prints a (function body) term with nested let bindings for shared sub-terms, so that
